@@ -647,6 +647,9 @@ type HarnessResult struct {
 	Wall     time.Duration
 }
 
+// runSlots bounds the number of paths executing at any moment across all harnesses.
+var runSlots = make(chan struct{}, 16)
+
 type workQueue struct {
 	mu      sync.Mutex
 	cond    *sync.Cond
@@ -737,15 +740,29 @@ func (e *Engine) exploreHarness(fn *ssa.Function, workers int) *HarnessResult {
 				rmu.Unlock()
 				return
 			}
-			defer sol.Close()
+			defer func() { sol.Close() }()
 			for {
 				prefix, ok := q.pop()
 				if !ok {
 					return
 				}
+				if sol.dead { // killed after a timeout: start a fresh process for the next path
+					sol.Close()
+					ns, err := NewSolver(solverZ3New, e.opts.TimeoutMs)
+					if err != nil {
+						rmu.Lock()
+						res.Err = "cannot restart solver: " + err.Error()
+						rmu.Unlock()
+						q.done()
+						return
+					}
+					sol = ns
+				}
 				run := e.newRun(fn, prefix, sol, violated, &vmu)
 				run.qcache = qcache
+				runSlots <- struct{}{}
 				errMsg := run.execute()
+				<-runSlots
 				rmu.Lock()
 				res.Stats.merge(run.stats)
 				res.Verdicts = append(res.Verdicts, run.verdicts...)
